@@ -117,23 +117,27 @@ def worker(x):
         tag = "xfab.%s %s" % (modname, {k: cs[k] for k in ("kind", "a", "p", "q")})
         try:
             k = cs["kind"]
+            # "for all real arguments": the non-Euler builders are also called with the angle shifted by multiples of 2 pi
+            sh = [0.0, 2 * math.pi, -2 * math.pi, 4 * math.pi, -6 * math.pi]
+            j = (x["den"] + len(cs["a"])) % 5
+            s1, s2, s3 = sh[j], sh[(j + 2) % 5], sh[(j + 3) % 5]
             if k == "euler":
                 a = [ang(t, True) for t in cs["a"]]
                 M = mod.euler_to_u(*a)
             elif k == "omega":
-                M = mod.form_omega_mat(ang(cs["a"][0]))
+                M = mod.form_omega_mat(ang(cs["a"][0]) + s1)
             elif k == "general":
-                M = mod.form_omega_mat_general(ang(cs["a"][0]), ang(cs["a"][1]), ang(cs["a"][2]))
+                M = mod.form_omega_mat_general(ang(cs["a"][0]) + s1, ang(cs["a"][1]) + s2, ang(cs["a"][2]) + s3)
             elif k == "quart":
-                M = mod.quart_to_omega(math.degrees(ang(cs["a"][0])), ang(cs["a"][1]), ang(cs["a"][2]))
+                M = mod.quart_to_omega(math.degrees(ang(cs["a"][0]) + s1), ang(cs["a"][1]) + s2, ang(cs["a"][2]) + s3)
             elif k == "tilt":
-                M = mod.detect_tilt(ang(cs["a"][0]), ang(cs["a"][1]), ang(cs["a"][2]))
+                M = mod.detect_tilt(ang(cs["a"][0]) + s1, ang(cs["a"][1]) + s2, ang(cs["a"][2]) + s3)
             else:
                 r = [v / cs["q"] for v in cs["p"]]
                 M = mod.rod_to_u(r)
             M = np.asarray(M, dtype=float)
             n += 1
-            if M.shape != (3, 3) or not np.all(np.isfinite(M)) or np.abs(M - ex).max() > 1e-12 * (1 if k != "rod" else 10):
+            if M.shape != (3, 3) or not np.all(np.isfinite(M)) or np.abs(M - ex).max() > 1e-12 * (1 if k != "rod" else 10) * (20 if k in ("omega", "general", "quart", "tilt") else 1):
                 out.append("%s differs from the documented composition of elementary rotations by %.3g (%s)" %
                            ({"euler": "euler_to_u", "omega": "form_omega_mat", "general": "form_omega_mat_general",
                              "quart": "quart_to_omega", "tilt": "detect_tilt", "rod": "rod_to_u"}[k],
